@@ -17,6 +17,11 @@ CHECKS = {
         text="C18_protocol proves, for all options with theta_start in [0,1] and positive increments and for every success/failure oracle, that the trace of the modelled loop satisfies the decidable predicate trace_ok (first solve at theta_start, theta<=1, increase only after success, step back with halved increment after failure, success only by a solve at 1, failure exactly when the first solve fails or the halved increment drops below the minimum, seeding from the last accepted solve); C18_terminates gives an explicit bound on the number of solves. The real loop is run on all scripts up to length 7 (quick) / 11 (thorough) for 26 option triples and compared event by event with the model (dyadic options, exact) and with trace_ok evaluated in Coq (all options).",
         note="Trusted: Coq kernel + vm_compute; the scripted inner optimize() standing in for the solver; binary64 rounding is not modelled (non-dyadic options are judged by trace_ok with tol 1e-9 only). No axioms. The unrepaired loop violated the property (fixed in /repo 9c3aba5, see known_findings.json).",
         ref="DESIGN.md §5 C18"),
+    "C10": dict(
+        technique="Coq proof (closed form of the priority loop by induction over the priority list, for every oracle) + exhaustive correspondence of the Gallina loop against GoalProgrammingMixin / SinglePassGoalProgrammingMixin with a scripted solver",
+        text="C10_run_is_spec proves that the modelled loop equals a closed-form specification (trace of hooks and solves, return value, which solve's results are exposed) for every goal list and every success/failure oracle; C10_priorities_* prove ascending, duplicate-free priorities made of exactly the non-empty goals; the real optimize() of the multi-pass, keep-soft and both single-pass variants is driven by a scripted casadi_solver over exhaustive failure patterns and compared with the model and the specification evaluated in Coq.",
+        note="Trusted: Coq kernel + vm_compute; scripted solver standing in for IPOPT (public casadi_solver option); the user hook flag skip_priority is not modelled. No axioms.",
+        ref="DESIGN.md §5 C10"),
 }
 
 PENDING_REASON = "check not built yet (work in progress; see DESIGN.md §7 build order) — not claimed until its Coq model, theorems and correspondence check run clean on the unchanged tree"
